@@ -9,6 +9,7 @@ import EtVerif.Driver.C06
 import EtVerif.Driver.Compute
 import EtVerif.Driver.OapiD
 import EtVerif.Driver.GrpcD
+import EtVerif.Driver.FeD
 
 open EtVerif EtVerif.Driver
 
@@ -18,12 +19,15 @@ def judgeLine (line : String) : String :=
   | id :: prop :: op :: rest =>
     let p : P Verdict := match prop with
       | "C09" => judgeC09 op
-      | "C01" | "C02" | "C05" | "C18" | "C03" | "C13" | "C14" | "C15" | "C16" | "C17" =>
+      | "C01" | "C02" | "C05" | "C18" | "C03" | "C13" | "C14" | "C15" | "C16" | "C17" | "C19" | "C20" =>
         (if op == "compute" then judgeCompute prop
          else if op == "oapi" then judgeOapi prop
          else if op == "hist" then judgeStoreHist
          else if op == "isolate" then judgeIsolate
          else if op == "ghist" then judgeGHist prop
+         else if op == "upload" then judgeUpload
+         else if op == "cli" then judgeCli
+         else if op == "readlt" then judgeReadLT
          else if op == "state" then judgeState
          else if op == "bytes" then judgeBytes
          else throw s!"unknown op {op}")
